@@ -255,10 +255,18 @@ class DistinctCountCheck(AbstractCheck):
         data.
         """
         try:
-            names_in_expression = compile(self._expression, "<rule>", "eval").co_names
+            codes_to_examine = [compile(self._expression, "<rule>", "eval")]
         except Exception as message:
             raise errors.InterfaceError(
                 "cannot evaluate count expression %r: %s" % (self._expression, message), self.location_of_rule
+            )
+        names_in_expression = []
+        while codes_to_examine:
+            code_to_examine = codes_to_examine.pop()
+            names_in_expression.extend(code_to_examine.co_names)
+            # Nested scopes, for example from lambda, have their own code with further names.
+            codes_to_examine.extend(
+                constant for constant in code_to_examine.co_consts if hasattr(constant, "co_names")
             )
         unknown_names = [name for name in names_in_expression if name != DistinctCountCheck._COUNT_NAME]
         if unknown_names:
